@@ -11,11 +11,14 @@ run-time invariants). Four clauses are shape, each a defect class the property t
   C04.K  a lookup keyed by a script Value is never assumed to succeed: no unwrap/expect on the result of
          CaoLangTable/CaoHashMap<Value, _> get / get_mut / remove. Value equality is not reflexive (NaN) and a table's hash
          changes when it is mutated, so a key that was inserted need not be found again.
+  C04.H  (= C14.B, shared) every store that raises a stack's height is guarded by a comparison with the capacity: exhaustion
+         surfaces as the stack-full error the handlers map (C04.S), never as an out-of-bounds panic.
   C04.S  exhausting the value stack or call stack is mapped to the corresponding error, never unwrapped, in the VM's
          instruction handlers.
 """
 from cao.facts import callee_names, short, op_local, op_place
-from cao.rules import Rule, ok, bad, undecided, note
+from cao.rules import Rule, ok, bad, undecided, note, shared
+import rules.c14 as _c14
 from cao import mirutil as mu
 
 EXPLANATION = (
@@ -321,5 +324,6 @@ RULES = [
     Rule("C04.G", rule_g, 3, "insertion paths keep a free slot (C12.G/C13.G): probes terminate"),
     Rule("C04.R", rule_r, 1, "recursion over script data is bounded"),
     Rule("C04.K", rule_k, 8, "lookups keyed by script values are not assumed to succeed"),
+    Rule("C04.H", shared(_c14.rule_b, "C14.B", "C04.H"), 14, "height-raising stores are guarded (shared with C14.B)"),
     Rule("C04.S", rule_s, 20, "stack exhaustion is an error value in instruction handlers"),
 ]
